@@ -40,6 +40,7 @@ type checkCtx struct {
 	known        map[string]knownFinding
 	replayN      int
 	alsoEvidence []string // further property ids that get a copy of the evidence (shared workloads)
+	replayOf     string   // tier recorded in the replay file (replay mode)
 }
 
 type knownFinding struct {
@@ -82,8 +83,8 @@ func newCheckCtx(prop string) *checkCtx {
 	return c
 }
 
-func (c *checkCtx) quick() bool    { return c.tier != "thorough" }
-func (c *checkCtx) thorough() bool { return c.tier == "thorough" }
+func (c *checkCtx) quick() bool    { return !c.thorough() }
+func (c *checkCtx) thorough() bool { return c.tier == "thorough" || (c.tier == "replay" && c.replayOf == "thorough") }
 
 // pick returns q in the quick tier and t in the thorough tier.
 func (c *checkCtx) pick(q, t int) int {
